@@ -151,6 +151,31 @@ SEEDS = [
   {'C08': 'VIOLATION token::third_party::ThirdPartyRequest::from_container::ensures.sealed'}),
  ('C08-6', '/scratch/t/r5/C08-2', 'C08', 'a sealed token with all blocks removed (seal verification folded into a peekable block loop that never runs)',
   {'C08': 'UNDECIDED (exit 2): the for loop the invariants are attached to became a `while let` over a peekable iterator (lost anchor)'}),
+ # ---- round 6 (avoid-the-obvious instruction; patches against HEAD 7c6e353, confirmed on b6b47ba) ----
+ ('C04-7', '/scratch/t/r6/C04-1', 'C04', 'a block-level public-key scope, a rule in that block and a key whose index differs between the token and the authorizer tables (block default trust computed before the scopes are translated)',
+  {'C04': 'VIOLATION token::builder::authorizer::load_and_translate_block (the block trusted set is not the specification set of the translated scopes)'}),
+ ('C04-8', '/scratch/t/r6/C04-2', 'C04', 'a matching deny policy and a failing check in a block >= 1 (early return before the block checks: the failed-check list is truncated)',
+  {'C04': 'VIOLATION token::authorizer::Authorizer::authorize_inner::ensures.failed_list', 'history': 'first NOT detected (exit 0): only the decision and the policy index were under contract; completeness of the failed-check list (every failing check, with origin and index) was then added to the contract'}),
+ ('C19-5', '/scratch/t/r6/C19-1', 'C19', 'sealed size by arithmetic with a secp256r1 last key (third sub-agent with this idea)',
+  {'C19': 'VIOLATION biscuit-capi::lib::biscuit_sealed_size::ensures.size'}),
+ ('C19-6', '/scratch/t/r6/C19-2', 'C19', 'error_check_rule with an out-of-range index after a failed authorization (update_last_error called while LAST_ERROR is borrowed: RefCell panic, abort)',
+  {'C19': 'NOT detected (exit 0): the error_* accessors are thread_local / RefCell / closure code outside the unit (listed under not_covered)'}),
+ ('C10-5', '/scratch/t/r6/C10-1', 'C10', 'a run that fails on a budget, then a second authorize / query on the same authorizer (execution_time set before the error is propagated: the failed run is taken as cached)',
+  {'C10': 'VIOLATION token::authorizer::Authorizer::run::ensures.error_not_cached', 'history': 'first NOT detected (exit 0): the contract of run said nothing about the cache on the error path; clause added'}),
+ ('C10-6', '/scratch/t/r6/C10-2', 'C10', 'the matching policy is the one that crosses the time budget (break moved in front of the time check)',
+  {'C10': 'VIOLATION token::authorizer::Authorizer::authorize_inner::assert[reads == evals] / loop6.clock@entry (clock accounting)'}),
+ ('C17-5', '/scratch/t/r6/C17-1', 'C17', 'protobuf key with an unknown algorithm tag (prost getter default); third sub-agent with this idea',
+  {'C17': 'VIOLATION crypto::PublicKey::from_proto::ensures.rel'}),
+ ('C17-6', '/scratch/t/r6/C17-2', 'C17', 'secp256r1 private keys of 24..=31 bytes accepted and zero-padded (SigningKey::from_slice instead of the length guard + from_bytes)',
+  {'C17': 'UNDECIDED (exit 2): p256 SigningKey::from_slice has no contract in specs/dep_crypto.rs'}),
+ ('C03-7', '/scratch/t/r6/C03-1', 'C03', 'a fact stated by an appended block that a trusted rule also derives, read by deny if / reject if (derived facts skipped when present under any origin; new helper FactSet::contains)',
+  {'C03': 'UNDECIDED (exit 2): fourth sub-agent with this optimisation; the fixpoint loop is under contract but the new helper is not'}),
+ ('C03-8', '/scratch/t/r6/C03-2', 'C03', 'a token padded to 63 / 64 / 65 blocks (origin sets get a 64-bit mask used for the trust test, the shift wraps)',
+  {'C03': 'UNDECIDED (exit 2): Origin gets a new field and a new helper origin_bit the unit has no contract for'}),
+ ('C09-5', '/scratch/t/r6/C09-1', 'C09', 'a hand-written block whose check query head has a variable the body does not bind (Rule::apply indexes the bindings instead of get)',
+  {'C09': 'NOT detected (exit 0): Rule::apply is closure code inside the join (oracle)'}),
+ ('C09-6', '/scratch/t/r6/C09-2', 'C09', 'a snapshot whose generated fact hides an unknown symbol inside an array / map (index-only validation replaces Fact::convert_from), then dump()',
+  {'C09': 'UNDECIDED (exit 2): the validation line of from_snapshot that a per-item rewrite is anchored on was replaced'}),
 ]
 only = sys.argv[1:] 
 for sid, src, prop, needs, det in SEEDS:
